@@ -1,5 +1,5 @@
 CONSTANT TransposeCapped = TRUE
-CONSTANT TransposeMinBatchCells = 0
+CONSTANT TransposeMinBatchCells = 1024
 INIT Init
 NEXT Next
 INVARIANT Inv
